@@ -13,6 +13,11 @@ fn main() {
     for u in &us {
         ctx.run_slice(Slice::new(format!("eval[{}]", u.name()), u.count(), move |i, loc| check::<B>(&u.get(i), loc)));
     }
+    // a user interpreter that splits its arguments with IndexedCoproduct::iter()
+    let ui = Progs::new(&[2, 3, 4, 6, 7], 3, 2, 1, 1);
+    ctx.run_slice(Slice::new(format!("eval-iter-interpreter[{}]", ui.name()), ui.count(), |i, loc| check_with_iter_interpreter(&ui.get(i), loc)));
+    let sti = ohmc::props::structured::programs(5);
+    ctx.run_slice(Slice::new(format!("eval-iter-interpreter-structured[{} programs]", sti.len()), sti.len() as u64, |i, loc| check_with_iter_interpreter(&sti[i as usize].1, loc)));
     let kmax = if quick { 6 } else { 8 };
     let st = ohmc::props::structured::programs(kmax);
     ctx.run_slice(Slice::new(format!("structured-programs[sizes 1..{}: {} programs]", kmax, st.len()), st.len() as u64, |i, loc| check::<B>(&st[i as usize].1, loc)));
